@@ -12,7 +12,8 @@ EXPLANATION = ("Necessary shape conditions, decided on every path: (R10.1) in ea
                "returns exactly the id it was given and re-syncs the live list on every path AFTER the id is back in the vacant FIFO; the running count is written "
                "nowhere else; report_stream_dropped is reachable only from ChannelConsumer::drop_resources, which is called only by Drop for MutinyStream; MutinyStream "
                "is neither Clone nor Copy and is never mem::forget-ed; every channel's drop_resources (11) releases exactly once; (R10.3) the vacant FIFO has capacity "
-               "MAX_STREAMS and is filled once with 0..MAX_STREAMS; (R10.4) every create_stream* wraps exactly the id it obtained from create_stream_id.")
+               "MAX_STREAMS and is filled once with 0..MAX_STREAMS; (R10.4) every create_stream* wraps exactly the id it obtained from create_stream_id; (R10.5) a request to end one "
+               "stream cancels its id once, before it waits -- never from inside the loop that runs until the id is vacant again (a vacant id may already belong to a new listener).")
 ASSUMPTIONS = ["the rebuild algorithm inside sync_vacant_and_used_streams (live list = complement of the vacant FIFO) is covered by the unit tests' sequential histories, not re-proved here",
                "'all of them if it keeps polling' is the delivery / wake-up behaviour of C03 / C04"]
 
@@ -127,3 +128,6 @@ def check(ctx):
             n4 += 1
             ctx.ob("R10.4", f"{f['key']}|stream-wraps-its-id|{n4 if len(news) > 1 else ''}", ok, body.loc(b2), f"MutinyStream::new({show(e)}, ..); required: an id obtained from create_stream_id in this function")
     ctx.floor("R10.4", 8)
+    # ------------------------------------------------------------------ R10.5 an end request never reaches the stream that later re-uses the id
+    S.check_cancel_not_repeated(ctx, "R10.5")
+    ctx.floor("R10.5", 1)
